@@ -10,14 +10,9 @@ pub trait IndexBuilder: QuotedBuilder + TableRefBuilder {
         sql: &mut dyn SqlWriter,
     ) {
         if let Some(name) = &create.index.name {
-            write!(
-                sql,
-                "CONSTRAINT {}{}{} ",
-                self.quote().left(),
-                name,
-                self.quote().right()
-            )
-            .unwrap();
+            write!(sql, "CONSTRAINT ").unwrap();
+            Alias::new(name).prepare(sql.as_writer(), self.quote());
+            write!(sql, " ").unwrap();
         }
 
         self.prepare_index_prefix(create, sql);
